@@ -221,7 +221,16 @@ def in_situ(ctx, conf):
             if case["thr"] == 0:
                 ctx.count("in_situ_cases_threshold_zero")
             try:
-                list(auditok.split(data, **AC.split_kwargs(case, long_names=bool(i % 2)), **AC.audio_kwargs(case)))
+                kw_ = AC.split_kwargs(case, long_names=bool(i % 2))
+                if i % 3 == 2 and case["w"] == case["block"] / case["rate"]:
+                    # the same request made on an AudioReader / Recorder input
+                    cls_ = auditok.Recorder if i % 2 else auditok.AudioReader
+                    rd_ = cls_(data, block_dur=case["w"], **AC.audio_kwargs(case))
+                    kw_ = {k: v for k, v in kw_.items() if k not in ("analysis_window", "aw")}
+                    ctx.count("in_situ_reader_inputs")
+                    list(auditok.split(rd_, **kw_))
+                else:
+                    list(auditok.split(data, **kw_, **AC.audio_kwargs(case)))
             except Exception as exc:
                 ctx.violation("exception:" + type(exc).__name__, {"case": state["case"], "exception": repr(exc)[:200]})
             ctx.case(("insitu", data, repr(sorted(state["case"].items()))), any(verdicts))
@@ -291,7 +300,7 @@ def inconclusive(merged, tier):
     c = merged["counters"]
     out = [f"monitor never observed {k}" for k in
            ("decisions_checked", "exact_boundary_cases", "silence_floor_cases", "constructor_cases",
-            "single_channel_selector_ignored_cases", "in_situ_verdicts", "in_situ_cases_threshold_zero", "container_variants_checked", "hook_is_valid_calls", "repo_tests_validator_verdicts_checked") if c.get(k, 0) == 0]
+            "single_channel_selector_ignored_cases", "in_situ_verdicts", "in_situ_cases_threshold_zero", "in_situ_reader_inputs", "container_variants_checked", "hook_is_valid_calls", "repo_tests_validator_verdicts_checked") if c.get(k, 0) == 0]
     if c.get("monitor_errors", 0):
         out.append("the passive monitor itself raised (see notes)")
     if c.get("energy_values_observed", 0) == 0:
